@@ -1,8 +1,191 @@
-(* C19 — the dict module behaves as a finite map. (stub while the proofs are being built) *)
-From Coq Require Import List ZArith.
-From Quiver Require Import Hamt.
+(* C19 — The dict module (std/dict.qv) behaves as a finite map.
+   This file contains ONLY the property theorems, each closed by `exact <lemma>` and followed by
+   Print Assumptions. Model: Hamt.v (function by function after std/dict.qv). Proofs:
+   HamtBits.v, HamtProofs.v, HamtInstance.v.
 
-Theorem C19_get_empty : forall (key val : Type) (key_eqb : key -> key -> bool) (hash : key -> Z) (k : key),
-  d_get key val key_eqb hash (d_new key val) k = Some None.
-Proof. reflexivity. Qed.
-Print Assumptions C19_get_empty.
+   Every theorem quantifies over an arbitrary key type with a decidable equality `key_eqb`
+   (Quiver's `=&` on 'key = Str['bin] | 'bin), an arbitrary value type, and an ARBITRARY hash
+   function `hash : key -> Z` with range [0, 2^32): so the statements cover key sets whose hashes
+   collide in any number of 5-bit fragments or in all 32 bits. C19_instance_fnv shows that the
+   instance executed by the correspondence check (Quiver keys, FNV-1a 32) meets the hypotheses.
+
+   Vocabulary (HamtProofs.v):
+     bindings d : the [key, value] pairs stored in the tree, in storage order
+     abs d k    : the finite map denoted by d  (first pair of `bindings d` with key k)
+     Inv d      : d = Empty, or `inv 7 0 d`: leaf hashes are the keys' hashes; collision buckets
+                  have >= 2 entries, pairwise distinct keys, all with the bucket's hash; a Node has
+                  0 <= bitmap < 2^32, its children pair up in order with the set bits of the bitmap
+                  (#children = popcount bitmap), the child at slot f is well formed one level down
+                  and holds only keys whose 5-bit fragment at this level is f; no Node is empty and
+                  a lone child is itself a Node (collapse_node's canonical form); depth <= 7.
+   `Some` results say that the model's constant fuel FUEL (resp. S (dsize d) for the worklist walk)
+   is never exhausted: the recursion of dict.qv terminates on every well-formed dict. *)
+From Coq Require Import List ZArith Bool Permutation.
+From Quiver Require Import Hamt HamtBits HamtProofs HamtInstance.
+Import ListNotations.
+Open Scope Z_scope.
+
+Theorem C19_inv_empty : forall (key val : Type) (hash : key -> Z), Inv key val hash (d_new key val).
+Proof. exact Inv_empty. Qed.
+Print Assumptions C19_inv_empty.
+
+(* put: defined, preserves the invariant, updates exactly the key k *)
+Theorem C19_put : forall (key val : Type) (key_eqb : key -> key -> bool) (hash : key -> Z),
+  (forall a b : key, key_eqb a b = true <-> a = b) -> (forall k : key, 0 <= hash k < 2 ^ 32) ->
+  forall (d : dict key val) (k : key) (v : val), Inv key val hash d ->
+  exists d', d_put key val key_eqb hash d k v = Some d' /\ Inv key val hash d' /\
+    forall k', abs key val key_eqb d' k' = if key_eqb k' k then Some v else abs key val key_eqb d k'.
+Proof. exact put_correct. Qed.
+Print Assumptions C19_put.
+
+(* remove: defined, preserves the invariant, deletes exactly the key k *)
+Theorem C19_remove : forall (key val : Type) (key_eqb : key -> key -> bool) (hash : key -> Z),
+  (forall a b : key, key_eqb a b = true <-> a = b) ->
+  forall (d : dict key val) (k : key), Inv key val hash d ->
+  exists d', d_remove key val key_eqb hash d k = Some d' /\ Inv key val hash d' /\
+    forall k', abs key val key_eqb d' k' = if key_eqb k' k then None else abs key val key_eqb d k'.
+Proof. exact remove_correct. Qed.
+Print Assumptions C19_remove.
+
+(* dict.qv: "A dict with `key` removed (unchanged if absent)": structurally unchanged *)
+Theorem C19_remove_absent : forall (key val : Type) (key_eqb : key -> key -> bool) (hash : key -> Z),
+  (forall a b : key, key_eqb a b = true <-> a = b) ->
+  forall (d : dict key val) (k : key), Inv key val hash d -> abs key val key_eqb d k = None ->
+  d_remove key val key_eqb hash d k = Some d.
+Proof. exact remove_absent_unchanged. Qed.
+Print Assumptions C19_remove_absent.
+
+(* get returns the binding of the abstraction (None = nil) *)
+Theorem C19_get : forall (key val : Type) (key_eqb : key -> key -> bool) (hash : key -> Z),
+  (forall a b : key, key_eqb a b = true <-> a = b) ->
+  forall (d : dict key val) (k : key), Inv key val hash d ->
+  d_get key val key_eqb hash d k = Some (abs key val key_eqb d k).
+Proof. exact get_correct. Qed.
+Print Assumptions C19_get.
+
+Theorem C19_has : forall (key val : Type) (key_eqb : key -> key -> bool) (hash : key -> Z),
+  (forall a b : key, key_eqb a b = true <-> a = b) ->
+  forall (d : dict key val) (k : key), Inv key val hash d ->
+  d_has key val key_eqb hash d k = Some (match abs key val key_eqb d k with Some _ => true | None => false end).
+Proof. exact has_correct. Qed.
+Print Assumptions C19_has.
+
+(* the stored pairs have pairwise distinct keys and are exactly the bindings of the abstraction *)
+Theorem C19_bindings : forall (key val : Type) (key_eqb : key -> key -> bool) (hash : key -> Z),
+  (forall a b : key, key_eqb a b = true <-> a = b) ->
+  forall d : dict key val, Inv key val hash d ->
+  NoDup (map fst (bindings key val d)) /\
+  forall k v, In (k, v) (bindings key val d) <-> abs key val key_eqb d k = Some v.
+Proof. exact bindings_are_the_map. Qed.
+Print Assumptions C19_bindings.
+
+(* entries (and iter, which yields the same list): a permutation of the stored pairs, no duplicate
+   key, exactly the bindings *)
+Theorem C19_entries : forall (key val : Type) (key_eqb : key -> key -> bool) (hash : key -> Z),
+  (forall a b : key, key_eqb a b = true <-> a = b) ->
+  forall d : dict key val, Inv key val hash d ->
+  exists es, d_entries key val d = Some es /\ Permutation es (bindings key val d) /\
+    NoDup (map fst es) /\ forall k v, In (k, v) es <-> abs key val key_eqb d k = Some v.
+Proof. exact entries_correct. Qed.
+Print Assumptions C19_entries.
+
+(* count = number of stored pairs = number of bound keys (by C19_bindings) *)
+Theorem C19_count : forall (key val : Type) (key_eqb : key -> key -> bool) (hash : key -> Z),
+  (forall a b : key, key_eqb a b = true <-> a = b) ->
+  forall d : dict key val, Inv key val hash d ->
+  d_count key val d = Some (Z.of_nat (length (bindings key val d))).
+Proof. exact count_correct. Qed.
+Print Assumptions C19_count.
+
+Theorem C19_keys : forall (key val : Type) (key_eqb : key -> key -> bool) (hash : key -> Z),
+  (forall a b : key, key_eqb a b = true <-> a = b) ->
+  forall d : dict key val, Inv key val hash d ->
+  exists ks, d_keys key val d = Some ks /\ Permutation ks (map fst (bindings key val d)) /\ NoDup ks.
+Proof. exact keys_correct. Qed.
+Print Assumptions C19_keys.
+
+Theorem C19_values : forall (key val : Type) (key_eqb : key -> key -> bool) (hash : key -> Z),
+  (forall a b : key, key_eqb a b = true <-> a = b) ->
+  forall d : dict key val, Inv key val hash d ->
+  exists vs, d_values key val d = Some vs /\ Permutation vs (map snd (bindings key val d)).
+Proof. exact values_correct. Qed.
+Print Assumptions C19_values.
+
+(* from: folds put over the pairs, later pairs win *)
+Theorem C19_from : forall (key val : Type) (key_eqb : key -> key -> bool) (hash : key -> Z),
+  (forall a b : key, key_eqb a b = true <-> a = b) -> (forall k : key, 0 <= hash k < 2 ^ 32) ->
+  forall ps : list (key * val),
+  exists d', d_from key val key_eqb hash ps = Some d' /\ Inv key val hash d' /\
+    forall k, abs key val key_eqb d' k =
+      fold_left (fun (m : key -> option val) (p : key * val) =>
+                   fun k' => if key_eqb k' (fst p) then Some (snd p) else m k') ps (fun _ => None) k.
+Proof. exact from_correct. Qed.
+Print Assumptions C19_from.
+
+(* merge: b's values win on conflict *)
+Theorem C19_merge : forall (key val : Type) (key_eqb : key -> key -> bool) (hash : key -> Z),
+  (forall a b : key, key_eqb a b = true <-> a = b) -> (forall k : key, 0 <= hash k < 2 ^ 32) ->
+  forall a b : dict key val, Inv key val hash a -> Inv key val hash b ->
+  exists d', d_merge key val key_eqb hash a b = Some d' /\ Inv key val hash d' /\
+    forall k, abs key val key_eqb d' k =
+      match abs key val key_eqb b k with Some v => Some v | None => abs key val key_eqb a k end.
+Proof. exact merge_correct. Qed.
+Print Assumptions C19_merge.
+
+(* earlier versions are unaffected by later operations (the operations are pure functions): once
+   put / remove have produced d1 / d2 from d, d still answers every get as before *)
+Theorem C19_persistence : forall (key val : Type) (key_eqb : key -> key -> bool) (hash : key -> Z),
+  (forall a b : key, key_eqb a b = true <-> a = b) -> (forall k : key, 0 <= hash k < 2 ^ 32) ->
+  forall (d : dict key val) (k : key) (v : val) (k2 : key) (d1 d2 : dict key val),
+  Inv key val hash d -> d_put key val key_eqb hash d k v = Some d1 -> d_remove key val key_eqb hash d k2 = Some d2 ->
+  forall k', d_get key val key_eqb hash d k' = Some (abs key val key_eqb d k') /\
+             d_get key val key_eqb hash d1 k' = Some (if key_eqb k' k then Some v else abs key val key_eqb d k') /\
+             d_get key val key_eqb hash d2 k' = Some (if key_eqb k' k2 then None else abs key val key_eqb d k').
+Proof. exact persistence. Qed.
+Print Assumptions C19_persistence.
+
+(* the headline: after ANY sequence of insertions, replacements and removals (run) starting from the
+   empty dict, the dict is defined and well formed, get returns for every key the value most recently
+   stored and not since removed (ref_run: the same sequence on plain functions key -> option val),
+   entries lists exactly those bindings once each, and count is their number *)
+Theorem C19_history : forall (key val : Type) (key_eqb : key -> key -> bool) (hash : key -> Z),
+  (forall a b : key, key_eqb a b = true <-> a = b) -> (forall k : key, 0 <= hash k < 2 ^ 32) ->
+  forall ops : list (op key val),
+  exists d, run key val key_eqb hash ops (d_new key val) = Some d /\ Inv key val hash d /\
+    (forall k, d_get key val key_eqb hash d k = Some (ref_run key val key_eqb ops (fun _ => None) k)) /\
+    (exists es, d_entries key val d = Some es /\ NoDup (map fst es) /\
+                (forall k v, In (k, v) es <-> ref_run key val key_eqb ops (fun _ => None) k = Some v) /\
+                d_count key val d = Some (Z.of_nat (length es))).
+Proof. exact history_correct. Qed.
+Print Assumptions C19_history.
+
+(* shape of every Node of a well-formed dict: children count = popcount of the bitmap *)
+Theorem C19_node_shape : forall (key val : Type) (hash : key -> Z) (n lvl : nat) (bm : Z) (cs : list (dict key val)),
+  inv key val hash n lvl (Node bm cs) ->
+  0 <= bm < 2 ^ 32 /\ Z.of_nat (length cs) = popcount bm /\ cs <> [].
+Proof. exact node_shape. Qed.
+Print Assumptions C19_node_shape.
+
+(* the trie depth is bounded: two 32-bit hashes that agree on all 7 fragments are equal, which is
+   why split_pair / split_node terminate for distinct hashes *)
+Theorem C19_depth_bound : forall h1 h2 : Z, 0 <= h1 < 2 ^ 32 -> 0 <= h2 < 2 ^ 32 ->
+  (forall j : nat, (j < 7)%nat -> frag h1 j = frag h2 j) -> h1 = h2.
+Proof. exact frag_inj. Qed.
+Print Assumptions C19_depth_bound.
+
+(* the instance run by the correspondence check meets the hypotheses of the theorems above *)
+Theorem C19_instance_fnv :
+  (forall a b : qkey, qkey_eqb a b = true <-> a = b) /\ (forall k : qkey, 0 <= qhash k < 2 ^ 32).
+Proof. exact (conj qkey_eqb_spec qhash_range). Qed.
+Print Assumptions C19_instance_fnv.
+
+(* non-vacuity: a concrete 5-level tree with a 3-entry collision bucket (two binaries with equal
+   FNV-1a hash and the Str twin of one of them) next to a leaf sharing four fragments, built by the
+   model's own put, satisfies the invariant *)
+Theorem C19_nonvacuous :
+  Inv qkey Z qhash
+    (Node 16384 [Node 64 [Node 32 [Node 67108864 [Node 536871936
+      [Leaf 413996238 (KBin [75; 110; 142; 148; 44]) 4;
+       Collision 1742542030 [(KBin [31; 99; 46; 225], 1); (KBin [51; 242; 70; 216], 2); (KStr [31; 99; 46; 225], 3)]]]]]]).
+Proof. exact ex_tree_inv. Qed.
+Print Assumptions C19_nonvacuous.
